@@ -6,7 +6,8 @@
   run.py Cxx --indices 1,2,3            (internal) print digests of the given runs as JSON
   run.py selftest determinism|anchors|schema
 
-Environment: VERIF_SEED (default 0), VERIF_TIER, VERIF_REPO (import root override), VERIF_WORKERS.
+Environment: VERIF_SEED (default 0), VERIF_TIER, VERIF_REPO (import root override), VERIF_WORKERS,
+VERIF_OUT (directory for replays/ and evidence/ instead of /verif; used by the mutant self-tests only).
 """
 from __future__ import annotations
 
@@ -15,6 +16,8 @@ import sys
 
 HERE = os.path.dirname(os.path.abspath(__file__))
 VERIF = os.path.dirname(HERE)
+# where replays/ and evidence/ are written; /verif itself unless the mutant self-test redirects it (VERIF_OUT)
+OUT = os.environ.get("VERIF_OUT") or VERIF
 
 # One fixed hash seed for every interpreter that executes runs (lark / set iteration order).
 if os.environ.get("PYTHONHASHSEED") is None:
@@ -146,7 +149,7 @@ def _work(args):
 # --------------------------------------------------------------------------- replay
 
 def write_replay(pid, plan, sig, digest, msg, directory="replays") -> str:
-    d = os.path.join(VERIF, directory)
+    d = os.path.join(OUT, directory)
     os.makedirs(d, exist_ok=True)
     sig8 = hashlib.sha256("/".join(sig).encode()).hexdigest()[:8]
     path = os.path.join(d, f"{pid}-{plan.get('run_seed', 'x')}-{sig8}.json")
@@ -200,18 +203,21 @@ def chunked(seq, n):
         yield seq[i:i + n]
 
 
-def run_check(pid: str, tier: str, verif_seed: int, runs: int | None, workers: int, det: bool) -> int:
+def run_check(pid: str, tier: str, verif_seed: int, runs: int | None, workers: int, det: bool, sweep: bool = False,
+              runs_div: int = 1) -> int:
     t0 = time.monotonic()
     prop = load_prop(pid)
     n_seeded = runs if runs is not None else prop.RUNS[tier]
     n_sys = prop.systematic_count(tier) if hasattr(prop, "systematic_count") else 0
     if runs is not None and runs < prop.RUNS[tier]:
         n_sys = min(n_sys, runs)
+    if runs_div > 1:
+        n_seeded, n_sys = max(1, n_seeded // runs_div), (max(1, n_sys // runs_div) if n_sys else 0)
     print(f"SEED verif_seed={verif_seed} property={pid} tier={tier} runs={n_seeded} systematic={n_sys} "
           f"workers={workers} repo={repo_root()}", flush=True)
 
     import glob
-    for stale in glob.glob(os.path.join(VERIF, "replays", f"{pid}-*.json")) + glob.glob(os.path.join(VERIF, "replays", "unminimised", f"{pid}-*.json")):
+    for stale in glob.glob(os.path.join(OUT, "replays", f"{pid}-*.json")) + glob.glob(os.path.join(OUT, "replays", "unminimised", f"{pid}-*.json")):
         os.unlink(stale)
 
     # which runs are re-executed in a second fresh interpreter (determinism self-check)
@@ -229,6 +235,7 @@ def run_check(pid: str, tier: str, verif_seed: int, runs: int | None, workers: i
         "extra": Counter(),
     }
     truncated = False
+    _kf = load_findings()
     ctx = multiprocessing.get_context("fork")
     try:
         with ProcessPoolExecutor(max_workers=workers, mp_context=ctx) as ex:
@@ -239,6 +246,8 @@ def run_check(pid: str, tier: str, verif_seed: int, runs: int | None, workers: i
             def submit_more():
                 nonlocal truncated
                 while len(futs) < workers * 2:
+                    if sweep and (agg["harness"] or any(match_finding(_kf, pid, tuple(v[2])) is None for v in agg["violations"])):
+                        return      # mutant sweeps only need to know whether anything is found
                     if time.monotonic() - t0 > WALL_CAP[tier]:
                         truncated = True
                         return
@@ -334,7 +343,7 @@ def run_check(pid: str, tier: str, verif_seed: int, runs: int | None, workers: i
             if code != 1:
                 continue       # only failed in this process because of leaked state: try another occurrence / the prelude
             small, execs = plan, 0
-            if reported < 6:
+            if reported < 6 and not sweep:
                 small, execs = core.minimise(plan, sig, prop.execute, prop.candidates)
             path = unmin
             if small is not plan:
@@ -373,6 +382,8 @@ def run_check(pid: str, tier: str, verif_seed: int, runs: int | None, workers: i
         print("  " + msg[:600].replace("\n", "\n  "))
         if rc == 0:
             rc = 1
+        if sweep:
+            break
     for kind, index, sig in not_repro[:5]:
         if rc == 1:
             print(f"NOTE property={pid} run={kind}:{index} sig={list(sig)}: seen in the batch but not reproducible alone "
@@ -423,8 +434,8 @@ def run_check(pid: str, tier: str, verif_seed: int, runs: int | None, workers: i
         "wall_s": round(wall, 2),
         "violations": n_viol,
     }
-    os.makedirs(os.path.join(VERIF, "evidence"), exist_ok=True)
-    with open(os.path.join(VERIF, "evidence", f"{pid}.json"), "w") as f:
+    os.makedirs(os.path.join(OUT, "evidence"), exist_ok=True)
+    with open(os.path.join(OUT, "evidence", f"{pid}.json"), "w") as f:
         json.dump(ev, f, indent=1, sort_keys=True)
     print(f"DONE property={pid} tier={tier} evaluations={agg['evaluations']} cases={agg['cases']} "
           f"distinct_nontrivial={len(agg['nontrivial'])} violations={n_viol} known={sum(known_seen.values())} "
@@ -470,6 +481,9 @@ def main() -> int:
     ap.add_argument("--indices")
     ap.add_argument("--sys-indices", default="")
     ap.add_argument("--no-determinism", action="store_true")
+    ap.add_argument("--runs-div", type=int, default=1, help="(mutant sweeps) execute 1/N of the tier's seeded and systematic runs")
+    ap.add_argument("--sweep", action="store_true",
+                    help="mutant sweeps: stop at the first violation, confirm it by fresh replay, skip minimisation")
     a = ap.parse_args()
 
     if a.prop == "selftest":
@@ -481,7 +495,7 @@ def main() -> int:
         idx = [int(x) for x in a.indices.split(",") if x != ""]
         sidx = [int(x) for x in a.sys_indices.split(",") if x != ""]
         return print_indices(a.prop, a.tier, a.seed, idx, sidx)
-    return run_check(a.prop, a.tier, a.seed, a.runs, a.workers, not a.no_determinism)
+    return run_check(a.prop, a.tier, a.seed, a.runs, a.workers, not a.no_determinism and not a.sweep, a.sweep, a.runs_div)
 
 
 if __name__ == "__main__":
